@@ -21,6 +21,7 @@ type absEval struct {
 	rep     string
 	unknown string
 	depth   int
+	phis    map[*ssa.Phi]bool
 }
 
 func (e *absEval) str(v ssa.Value) (string, bool) {
@@ -63,6 +64,12 @@ func (e *absEval) boolean(v ssa.Value) (bool, bool) {
 		if x.Op == token.NOT {
 			b, ok := e.boolean(x.X)
 			return !b, ok
+		}
+	case *ssa.Phi:
+		// a boolean assembled with && / || (or assigned on branches): its value was
+		// fixed by the edge on which the walk entered the phi's block
+		if b, ok := e.phis[x]; ok {
+			return b, true
 		}
 	case *ssa.BinOp:
 		// err (==|!=) nil where err is the result of a helper that checks the name:
@@ -164,7 +171,35 @@ func (e *absEval) boolean(v ssa.Value) (bool, bool) {
 // run walks fn for the representative; returns "accept", "reject" or "unknown".
 func (e *absEval) run(fn *ssa.Function) string {
 	b := fn.Blocks[0]
+	var prev *ssa.BasicBlock
+	if e.phis == nil {
+		e.phis = map[*ssa.Phi]bool{}
+	}
 	for steps := 0; steps < 200; steps++ {
+		if prev != nil {
+			// fix the boolean phis of the block just entered (all read their
+			// operands as of the edge, so evaluate first, then assign)
+			vals := map[*ssa.Phi]bool{}
+			for _, in := range b.Instrs {
+				phi, isPhi := in.(*ssa.Phi)
+				if !isPhi {
+					break
+				}
+				for i, p := range b.Preds {
+					if p == prev {
+						saved := e.unknown
+						if v, ok := e.boolean(phi.Edges[i]); ok {
+							vals[phi] = v
+						}
+						e.unknown = saved
+					}
+				}
+			}
+			for phi, v := range vals {
+				e.phis[phi] = v
+			}
+		}
+		prev = b
 		last := b.Instrs[len(b.Instrs)-1]
 		switch x := last.(type) {
 		case *ssa.If:
